@@ -32,7 +32,19 @@ def _alpha_unmangle(expr):
     if not alpha_subs:
         return tuple(expr._ast_values)
 
-    return expr._alpha_convert(alpha_subs)
+    # Stripping the suffix must be a mere renaming of bound variables: it must
+    # neither merge two of them nor capture a free input (both happen after the
+    # optimizer has moved reductions over variables with the same base name).
+    ast_values = expr._alpha_convert(alpha_subs)
+    if len(set(alpha_subs.values())) < len(alpha_subs) or set(
+        type(expr)(*ast_values).inputs
+    ) != set(expr.inputs):
+        raise NotImplementedError(
+            "cannot un-mangle the bound variables {} of a {}: names collide".format(
+                sorted(alpha_subs), type(expr).__name__
+            )
+        )
+    return ast_values
 
 
 class AdjointTape(Interpretation):
